@@ -146,12 +146,13 @@ def rule_loader_paths(u, rep, want=("LEAK", "RAW", "FILL", "ARG", "CAP")):
                             rep.oblige(ok)
                             if not ok:
                                 rep.add("ARG", name, "%s: the bytes handed to deserialize_eps are not taken from the backend at its final place inside the MemCase being built (%s)" % (name, label(a)[:120]), b.loc())
-                if e[0] == "Loop" and isinstance(e[1], tuple) and e[1] and e[1][0] == "itercount" and isinstance(e[2], tuple) and len(e[2]) == 1:
-                    # `for byte in &mut bytes[file_len..] { *byte = 0 }` is `bytes[file_len..].fill(0)`
-                    itv = e[1][2]
+                if e[0] == "Loop" and isinstance(e[2], tuple) and len(e[2]) == 1 and isinstance(e[2][0], tuple) and e[2][0] and e[2][0][0] == "Store":
+                    # `for byte in &mut bytes[file_len..] { *byte = 0 }` is `bytes[file_len..].fill(0)`: one store of 0 per
+                    # element of the iterated slice (the loop runs over the slice itself, so over all of it)
                     st_ = e[2][0]
-                    if isinstance(itv, tuple) and itv and itv[0] == "index" and isinstance(itv[2], tuple) and itv[2][0] == "adt" and itv[2][1].endswith("::RangeFrom") \
-                            and st_[0] == "Store" and isinstance(st_[1], tuple) and st_[1] and st_[1][0] == "elem" and st_[1][1] == itv and st_[-1] == C(0):
+                    tgt = st_[1]
+                    itv = tgt[1] if (isinstance(tgt, tuple) and len(tgt) > 2 and tgt[0] == "elem" and tgt[2] == e[3]) else None
+                    if isinstance(itv, tuple) and itv and itv[0] == "index" and isinstance(itv[2], tuple) and itv[2][0] == "adt" and itv[2][1].endswith("::RangeFrom") and st_[-1] == C(0):
                         fills.append((i, itv[1], dict(itv[2][3]).get(0)))
                 if e[0] == "R" and len(e) > 3 and e[2] == "B" and read_idx is None:
                     read_idx = i
